@@ -29,8 +29,12 @@ def main():
         tier = sys.argv[sys.argv.index("--tier") + 1]
         args = [a for a in args if a != tier]
     prop = args[0]
-    base = f"/tmp/seed-{prop}/seed"
-    muts = args[1:] or sorted(os.listdir(base))
+    rnd = ""
+    if "--round" in sys.argv:
+        rnd = sys.argv[sys.argv.index("--round") + 1]
+        args = [a for a in args if a != rnd]
+    base = f"/tmp/seed{rnd}-{prop}/seed"
+    muts = [a for a in args[1:]] or sorted(os.listdir(base))
     wt = f"/tmp/seedrun-{prop}"
     sh(["git", "-C", "/repo", "worktree", "remove", "--force", wt])
     rc, out = sh(["git", "-C", "/repo", "worktree", "add", "--detach", wt, "HEAD"])
@@ -41,7 +45,7 @@ def main():
         if not os.path.exists(os.path.join(d, "patch.diff")):
             continue
         sh(["git", "-C", wt, "checkout", "--", "."])
-        res = {"mutation": f"{prop}-{m}", "repo_head": sh(["git", "-C", "/repo", "rev-parse", "--short", "HEAD"])[1].strip()}
+        res = {"mutation": f"{prop}-{('r' + rnd) if rnd else ''}{m}", "repo_head": sh(["git", "-C", "/repo", "rev-parse", "--short", "HEAD"])[1].strip()}
         rc0, o0 = sh([PY, os.path.join(d, "demo.py")], cwd=wt, env=env, timeout=900)
         res["demo_clean_rc"] = rc0
         rc, o = sh(["git", "-C", wt, "apply", os.path.join(d, "patch.diff")])
@@ -68,7 +72,7 @@ def main():
         res["detected"] = rc3 == 1 and bool(viol)
         res["with_failing_input"] = any("no-failing-input-found" not in l for l in viol)
         res["check_tail"] = "\n".join(l for l in o3.split("\n") if "done:" in l or "BROKEN" in l or "OBLIGATION" in l)[-1500:]
-        dst = os.path.join(VERIF, "seeded", f"{prop}-{m}")
+        dst = os.path.join(VERIF, "seeded", res["mutation"])
         os.makedirs(dst, exist_ok=True)
         for f in ("patch.diff", "demo.py"):
             shutil.copy(os.path.join(d, f), os.path.join(dst, f))
